@@ -21,7 +21,9 @@ RULE = (
     "context with synonym / unknown / empty prefixes; lists of Triples written to .tsv and .tsv.gz. One evaluation = one "
     "generated case checked for: curie == prefix:identifier; from_curie / string validation / JSON / from_reference / "
     "write_triples->read_triples round trips give equal objects, splitting at the first separator; separator-free strings "
-    "rejected (ValueError family); == and hash depend only on the pair across the three pydantic classes; ReferenceTuple "
+    "rejected (ValueError family); == and hash depend only on the pair across the three pydantic classes, whatever the route "
+    "by which an instance came into being (constructed, model_copy with and without update of an instance that was "
+    "already hashed, copy / deepcopy / pickle, re-validated, from_reference); ReferenceTuple "
     "behaves as the plain tuple; < is the lexicographic order on the pair and sorted() agrees with sorting tuples; "
     "assignment raises; with a converter context prefixes come back standardised and unknown ones raise ValidationError. "
     "Non-trivial = a collision across classes or names, or an identifier containing the separator or a character that "
@@ -168,15 +170,54 @@ def algebra_cases(draw, tier="quick"):
     n = draw(st.integers(2, 7))
     refs = []
     for _ in range(n):
-        refs.append({"cls": draw(st.sampled_from(CLASSES)), "prefix": draw(st.sampled_from(ps)), "identifier": draw(st.sampled_from(ids)), "name": draw(st.sampled_from(NAMES))})
+        refs.append({"cls": draw(st.sampled_from(CLASSES)), "prefix": draw(st.sampled_from(ps)), "identifier": draw(st.sampled_from(ids)), "name": draw(st.sampled_from(NAMES)),
+                     "route": draw(st.sampled_from(ROUTES))})
     return {"refs": refs}
+
+
+# how an instance with a given pair comes into being: the pair alone must decide == and hash whatever the route, also when
+# the instance it was copied from has already been hashed / used as a dictionary key
+ROUTES = ["direct", "direct", "copy-of-hashed", "updated-copy-of-hashed", "copy.copy", "deepcopy", "pickle", "revalidated", "from_reference"]
+
+
+def build_via(spec):
+    import copy as _copy
+    import pickle
+
+    cls, p, i, name, route = spec["cls"], spec["prefix"], spec["identifier"], spec["name"], spec.get("route", "direct")
+    obj = build(cls, p, i, name)
+    if route == "direct":
+        return obj
+    _ = hash(obj), {obj: 1}, {obj}, obj < obj
+    if route == "copy-of-hashed":
+        return obj.model_copy()
+    if route == "updated-copy-of-hashed":
+        donor = build(cls, p + "x", i + "y", name)
+        _ = hash(donor), {donor}
+        half = donor.model_copy(update={"prefix": p})
+        _ = hash(half)
+        return half.model_copy(update={"identifier": i})
+    if route == "copy.copy":
+        return _copy.copy(obj)
+    if route == "deepcopy":
+        return _copy.deepcopy(obj)
+    if route == "pickle":
+        return pickle.loads(pickle.dumps(obj))
+    if route == "revalidated":
+        return type(obj).model_validate(obj.model_dump())
+    return type(obj).from_reference(obj)
 
 
 def check_algebra(case, stats: Stats) -> None:
     stats.ev()
     specs = case["refs"]
-    objs = [build(s["cls"], s["prefix"], s["identifier"], s["name"]) for s in specs]
+    objs = [build_via(s) for s in specs]
     pairs = [(s["prefix"], s["identifier"]) for s in specs]
+    for o, pr, sp in zip(objs, pairs, specs):
+        if (str(o.prefix), o.identifier) != pr:
+            raise Violation(f"instance obtained via {sp.get('route')} has pair {(str(o.prefix), o.identifier)!r}, expected {pr!r}")
+    if any(s.get("route", "direct") != "direct" for s in specs):
+        stats.cls("instances-via-copy-routes")
     collide = False
     for x, px, sx in zip(objs, pairs, specs):
         for y, py, sy in zip(objs, pairs, specs):
